@@ -344,6 +344,8 @@ def check_C05(tr):
 
 def check_C06(tr):
     bad = []
+    if not tr.case.has_op("skip"):
+        return bad
     for oi in tr.ops:
         if oi.op == "skip" and oi.slot == 0 and oi.ret is not None:
             bad += check_after(tr, oi.ret, "skip_to_end returned")
@@ -568,12 +570,10 @@ def check_C11(tr):
         line = oi.events[-1][0] if oi.events else oi.call
         reports.append((line, v, oi))
     reports.sort(key=lambda r: r[0])
-    prev = None
-    for (line, v, oi) in reports:
-        if v is not None:
-            if prev is not None and v > prev:
-                bad.append("reported length grows from %d to %d (line %d)" % (prev, v, oi.ret))
-            prev = v
+    for (_, va, A) in reports:
+        for (_, vb, B) in reports:
+            if va is not None and vb is not None and A.ret < B.call and vb > va:
+                bad.append("reported length grows from %d (query returned at line %d) to %d (query called at line %d)" % (va, A.ret, vb, B.call))
     # (b) zero / No is definitive
     for (line, v, oi) in reports:
         if v == 0:
@@ -585,10 +585,13 @@ def check_C11(tr):
     if not c.is_iter() or (c.hint == "exact" and c.fused()):
         pulls = [p for p in tr.pulls() if p.slot == 0]
         for (line, v, oi) in reports:
-            inflight = [p for p in pulls if p.call < oi.call and (p.ret is None or p.ret > oi.call)]
+            inflight = [p for p in pulls if p.call < oi.ret and (p.ret is None or p.ret > oi.call)]
             if inflight:
                 continue
-            skipped = any(s.op == "skip" and s.slot == 0 and s.call < oi.call for s in tr.ops)
+            skips = [s for s in tr.ops if s.op == "skip" and s.slot == 0]
+            if any(s.call < oi.ret and (s.ret is None or s.ret > oi.call) for s in skips):
+                continue
+            skipped = any(s.ret is not None and s.ret < oi.call for s in skips)
             before = set()
             for p in pulls:
                 if p.ret is not None and p.ret < oi.call:
@@ -645,7 +648,7 @@ def check_C16(tr):
     bad = []
     c = tr.case
     for oi in tr.ops:
-        if oi.panic and not (oi.panic == "chunksize" and oi.n == 0 or (oi.op == "bufnew" and oi.toks[1] == "0")):
+        if oi.panic and oi.panic not in ("probe", "closure", "clone") and not (oi.panic == "chunksize" and oi.n == 0 or (oi.op == "bufnew" and oi.toks[1] == "0")):
             bad.append("%s at line %d panicked (%s)" % (" ".join(oi.toks), oi.call, oi.panic))
         if oi.op in ("bufnew", "foreach", "enumforeach", "fold") and oi.toks[1] == "0" and oi.panic != "chunksize":
             bad.append("%s with chunk size 0 did not panic as documented (line %d)" % (oi.op, oi.call))
@@ -659,6 +662,8 @@ def check_C16(tr):
 
 def check_C18(tr):
     bad = []
+    if not any(o.panic for o in tr.ops) and not any(" panic " in l for l in tr.lines):
+        return bad
     if tr.stuck() and not (tr.case.is_iter() and tr.case.frozen):
         bad.append("after the panic the remaining threads wait forever (stuck)")
     if tr.hang:
